@@ -805,6 +805,19 @@ theorem hardlink_filter_spec (es : List RawEnt) (i : Nat) (hi : i < es.length) :
   have := hlFilter_getElem es [] i hi
   simpa using this
 
+/--
+**`sqfs2tar --subdir`** (`keep_entry`, bin/sqfs2tar/src/iterator.c).  For one `--subdir` argument `p` an entry is kept exactly when
+it is `p` itself, an ancestor directory of `p`, or lies below `p` — where "below" means that the name continues with a '/' after
+`p`: a sibling whose name merely *starts* with `p` (`d.y`, `dx` next to `d`) is not selected.  (With several arguments an entry is
+kept when one of them keeps it: `keepEntry` is the disjunction.)  The model function is compared with the real tool on every run
+on images that contain such siblings.
+-/
+theorem subdir_selection_spec (p name : Bytes) :
+    (keepFor p name = true ↔ name = p ∨ isBelow name p = true ∨ isBelow p name = true) ∧
+    (isBelow p name = true ↔ p.length < name.length ∧ name[p.length]? = some Sqfs.Path.SL ∧ name.take p.length = p) := by
+  refine ⟨keepFor_iff p name, ?_⟩
+  simp [isBelow]
+
 /-! ### layout facts the models rely on, re-checked against `include/tar/format.h` on every run
 (`Sqfs/Generated/Consts.lean` is regenerated from the working tree; a changed offset or width breaks this build) -/
 section layout
@@ -954,6 +967,9 @@ example : parseUint (ascii "18446744073709551609") = some (18446744073709551609,
 -- `pax_sparse_map_spec`: the hypotheses hold for a real map, and `renderMap` is the record's syntax
 example : renderMap [(ascii "10", ascii "3"), (ascii "020", ascii "2")] = ascii "10,3,020,2" ∧ IsDec (ascii "020") ∧ decVal (ascii "020") = 20 := by
   refine ⟨by decide, ⟨by decide, by decide, by decide⟩, by decide⟩
+-- `subdir_selection_spec`: `d` selects itself, its ancestor-free self, `d/x`, but neither `dx` nor `d.y`
+example : keepFor (ascii "a/d") (ascii "a") = true ∧ keepFor (ascii "a/d") (ascii "a/d/x") = true ∧ keepFor (ascii "a/d") (ascii "a/dx") = false ∧
+    keepFor (ascii "a/d") (ascii "a/d.y") = false ∧ keepFor (ascii "a/d") (ascii "b") = false := by decide
 -- `hardlink_filter_spec` on a listing with a directory, three names of inode 7 and one other file: the first name in listing
 -- order stays a file, the later ones point to it
 set_option maxRecDepth 100000 in
